@@ -2685,6 +2685,23 @@ func (c *DnsController) applyPreferenceWait(respMsg *dnsmessage.Msg) *dnsmessage
 	return respMsg
 }
 
+// checkDnsResponseQuestion verifies that resp answers the question carried by the packed
+// request reqData (RFC 5452 section 4.2): same type and class, same name ignoring letter case.
+func checkDnsResponseQuestion(reqData []byte, resp *dnsmessage.Msg) error {
+	var req dnsmessage.Msg
+	if err := req.Unpack(reqData); err != nil || len(req.Question) == 0 {
+		return nil
+	}
+	if resp == nil || len(resp.Question) == 0 {
+		return fmt.Errorf("dns response carries no question section")
+	}
+	q, r := req.Question[0], resp.Question[0]
+	if q.Qtype != r.Qtype || q.Qclass != r.Qclass || !strings.EqualFold(q.Name, r.Name) {
+		return fmt.Errorf("dns response question %q (type %v) does not match the request %q (type %v)", r.Name, r.Qtype, q.Name, q.Qtype)
+	}
+	return nil
+}
+
 func (c *DnsController) dialSend(
 	ctx context.Context,
 	invokingDepth int,
@@ -2738,6 +2755,11 @@ func (c *DnsController) dialSend(
 	var usedDialArg *dialArgument
 	respMsg, usedDialArg, err = c.forwardWithFallback(ctx, req, upstream, dialArg, data)
 	if err != nil {
+		return err
+	}
+	// The transports match responses by transaction ID only: a late, duplicated or foreign
+	// response with a colliding ID must not be relayed or cached under this request's key.
+	if err = checkDnsResponseQuestion(data, respMsg); err != nil {
 		return err
 	}
 
